@@ -2,6 +2,6 @@
 (* every behaviour of Pipeline.tla ends in a verdict; it is printed as a scenario for the real prover / verifier *)
 EXTENDS Pipeline, TLC, Json
 Emit == phase = "verified" =>
-          PrintT(ToJson([tag |-> "pipeline", opts |-> opts, via_bytes |-> viaBytes, tamper |-> tamper, expect |-> verdict,
+          PrintT(ToJson([tag |-> "pipeline", opts |-> opts, hash |-> htag, via_bytes |-> viaBytes, tamper |-> tamper, expect |-> verdict,
                          min_level |-> IF verdict = "accept" THEN Configured(opts) ELSE 0]))
 =============================================================================
